@@ -723,11 +723,15 @@ where
                             member.incarnation() == incarnation
                         })
                     {
+                        let apply_successful = summary.apply_successful;
                         self.handle_apply_summary(summary, as_down, true, &mut runtime)?;
                         // Member went down we might need to adjust our internal state
                         self.adjust_connection_state(&mut runtime);
 
-                        if self.config.notify_down_members {
+                        // Only when the member was actually declared down: the
+                        // suspicion may have been refuted (higher incarnation)
+                        // or the identity superseded in the meantime
+                        if apply_successful && self.config.notify_down_members {
                             // As a courtesy, we send a lightweight message to the member
                             // we're declaring down so that if it manages to receive it,
                             // it can react accordingly
